@@ -108,7 +108,16 @@ class C05(Prop):
         driver.quiet_process()
 
     def normalize(self, spec):
-        return _number(spec)
+        return spec if 'deep' in spec else _number(spec)
+
+    def enumerate(self, tier):
+        """Depth dimension: chains far deeper than any recursion the dispatcher could afford (default recursion limit 1000)."""
+        out = []
+        for n in ((40, 1500) if tier == 'quick' else (40, 999, 1500, 4000)):
+            for drv in ('tick', 'run'):
+                out.append({'deep': n, 'inner': [], 'driver': drv})
+                out.append({'deep': n, 'inner': [n // 2, n - 1, n], 'driver': drv})
+        return out
 
     def strategy(self, tier):
         e = _ev_strategy(2 if tier == 'quick' else 3)
@@ -214,7 +223,76 @@ class C05(Prop):
         return log, exhausted, escaped, err.getvalue()
 
     # ------------------------------------------------------------------
+    def _deep(self, spec):
+        """{"deep": N, "inner": [depths...], "driver": ...}: a chain of N events, each fired by the handler of the one before;
+        the top one and the links at the ``inner`` depths ask for completion.  Judged iteratively (the harness must not
+        need more stack than the code under test): every link dispatched once, each complete exactly once and only
+        after the last link of the chain (which is the end of every closure here)."""
+        n = spec['deep']
+        inner = set(spec.get('inner', []))
+        log = []
+
+        class link(Event):
+            pass
+
+        class clink(Event):
+            complete = True
+
+        class App(BaseComponent):
+            @H('link', 'clink')
+            def _l(self, event, k):
+                log.append(('d', k))
+                if k < n:
+                    self.fire((clink if (k + 1) in inner else link)(k + 1))
+
+            @H('clink_complete')
+            def _c(self, event, e, value):
+                log.append(('c', e.args[0], len([1 for l in log if l[0] == 'd'])))
+
+            @H('exception', channel='*')
+            def _x(self, etype, evalue, tb, handler=None, fevent=None):
+                log.append(('x', repr(evalue)[:120]))
+
+        app = App()
+        driver.settle(app, 10)
+        escaped = None
+        with driver.captured_stderr() as err:
+            try:
+                app.fire(clink(0))
+                if spec.get('driver') == 'run':
+                    idle = driver.run_to_quiescence(app, max_iter=n + 50)
+                    exhausted = idle.exhausted or idle.blocked > 0
+                else:
+                    exhausted = driver.settle(app, n + 50) < 0
+            except BaseException as e:  # noqa
+                escaped = repr(e)[:200]
+        classes = ['deep-chain', 'deep>=1000' if n >= 1000 else 'deep<1000']
+
+        def bad(clause, msg):
+            return Result(False, clause, '%s [deep chain of %d, complete at %s, driver=%s]' % (msg, n, sorted(inner | {0}), spec.get('driver')), True, classes)
+        if escaped:
+            return bad('exception-escaped', 'exception escaped the loop: %s' % escaped)
+        xs = [l for l in log if l[0] == 'x']
+        if xs:
+            return bad('stray-exception', 'exception event: %s' % xs[0][1])
+        if err.getvalue().strip():
+            return bad('stderr', 'error output: %s' % err.getvalue()[-200:])
+        if exhausted:
+            return bad('no-quiescence', 'loop did not become quiescent')
+        ds = [l[1] for l in log if l[0] == 'd']
+        if ds != list(range(n + 1)):
+            return bad('event-lost', '%d links dispatched, expected %d, each once and in order' % (len(ds), n + 1))
+        for k in sorted(inner | {0}):
+            cs = [l for l in log if l[0] == 'c' and l[1] == k]
+            if len(cs) != 1:
+                return bad('complete-missing' if not cs else 'complete-twice', 'link %d: complete dispatched %d times' % (k, len(cs)))
+            if cs[0][2] != n + 1:
+                return bad('complete-early', 'link %d: complete dispatched after %d of %d links' % (k, cs[0][2], n + 1))
+        return Result(True, nontrivial=True, classes=classes)
+
     def execute(self, spec):
+        if 'deep' in spec:
+            return self._deep(spec)
         log, exhausted, escaped, errout = self._run_real(spec)
         drv = spec['driver']
 
